@@ -57,6 +57,8 @@ def main():
                 text = absyn.render(c["s"], rng)
                 real = realrun.loads(text)
             rec["text"] = text
+            from . import values
+            values.EXTRA_ATOMS = dict(enumerate(c.get("atoms", [])))
             rec["why"] = progcmp.cmp_outcome(c["out"], real, sections=tuple(c.get("sections", ("meta", "ops", "modes", "params"))),
                                              strict_cls=False, num_kind=c.get("num_kind", True))
             if real[0] == "ok":
